@@ -919,7 +919,10 @@ def substr_bound_rule(ctx, rid, scope, minimum):
                         cl = max(cl, nb)
                     best = cl if best is None else min(best, cl)
                 return (best if best is not None else lb, al, tested)
-            facts.Explorer(fn, on_elem=on_elem, on_edge=on_edge).run(fn.entry, 0, (0, frozenset(), False))
+            ex = facts.Explorer(fn, on_elem=on_elem, on_edge=on_edge)
+            # only conditions on the string itself need to be remembered along a path (keeps large handlers tractable)
+            ex.corr = set(k for k in ex.corr if re.search(r'(?<![\w.])%s(?![\w])' % re.escape(sk), k))
+            ex.run(fn.entry, 0, (0, frozenset(), False), max_states=1000000)
             if res['lb'] is None:
                 ctx.ob(rid, fn, c, True, '%s.substr(%d...)' % (sk, k), 'not reachable', nontrivial=False)
             elif res['lb'] >= k:
